@@ -494,14 +494,18 @@ fn shades_from_bdl(bdl: &Data) -> Vec<Shade> {
             } else if let Some(vertices) = sh.vertices.as_ref() {
                 // 2. Sombras definidas por vértices
                 // Aquí tenemos que tener cuidado con las operaciones de giros ya que tienen criterios de medición distintos
+                // Sombras de área nula (sin al menos tres vértices)
+                if vertices.len() < 3 {
+                    return None;
+                };
                 let normal = (vertices[1] - vertices[0]).cross(&(vertices[2] - vertices[1]));
                 // XXX: Esto se podría evitar iterando hasta encontrar dos segmentos que no sean colineales
                 // Basta con ir probando los siguientes tres puntos
                 // https://community.khronos.org/t/how-to-calculate-polygon-normal/49265/3
-                assert!(
-                    normal.magnitude() > 10.0 * f32::EPSILON,
-                    "Polígono con puntos colineales"
-                );
+                if normal.magnitude() <= 10.0 * f32::EPSILON {
+                    log::warn!("Sombra {} con puntos colineales. Se ignora", name);
+                    return None;
+                };
                 let tilt = Vector3::z_axis().angle(&normal);
                 // Azimuth del elemento de sombra (¡Atención! Criterio EN S=0, E=+90, W=-90)
                 let shade_azimuth = if (tilt % std::f32::consts::PI).abs() > (10.0 * f32::EPSILON) {
